@@ -118,6 +118,7 @@ type Engine struct {
 	axioms     []string
 	notes      []string
 	curPos     token.Pos
+	armBase    int
 	loopOrd    map[ast.Stmt]int
 	rangeAlias map[types.Object]string // range key var -> hidden index term (for invariants)
 	unsupported []string
@@ -417,6 +418,12 @@ func (e *Engine) rangeFact(term string, t types.Type) string {
 		return e.le(e.izero(), term)
 	case *types.Interface:
 		// type ids and payload ids are non-negative; the nil interface is (0, 0)
+		if e.c != nil && e.c.Opts["typednil"] != "" {
+			// assumed of the data (opt typednil): an interface value held in memory or passed in never wraps a nil
+			// pointer; such values arise only from conversions in the code under verification
+			e.declareFun("tnil", []string{"Ifc"}, "Bool")
+			return and(sx("<=", "0", sx("i_tid", term)), sx("<=", "0", sx("i_val", term)), not(sx("tnil", term)))
+		}
 		return and(sx("<=", "0", sx("i_tid", term)), sx("<=", "0", sx("i_val", term)))
 	case *types.Struct:
 		var fs []string
@@ -487,7 +494,7 @@ func (e *Engine) heapGet(st *State, name, sort string) string {
 	}
 	e.sortDone["heap:"+name] = sort
 	ep := fmt.Sprint(st.epoch)
-	if strings.HasPrefix(name, "W_") {
+	if strings.HasPrefix(name, "W_") || strings.HasPrefix(name, "GH_") {
 		// the abstract writer's ghost heaps survive unknown calls (see havocAll): one that has not been named on this
 		// path yet still has its entry value
 		ep = "0"
@@ -539,6 +546,12 @@ func (e *Engine) havocAll(st *State) {
 				}
 			}
 			e.stubsUsed["fields of the package-private type "+tn+" are not modified by code reached through interface methods or function values (opt stable)"] = true
+		}
+	}
+	for g := range st.heaps {
+		// activation-local ghost state (ghost-visit log) is not reachable by any code
+		if strings.HasPrefix(g, "GH_") {
+			keep[g] = st.heaps[g]
 		}
 	}
 	e.nepoch++
@@ -771,6 +784,15 @@ func (e *Engine) merge(states []*State) *State {
 			out.heaps[name] = vals[0]
 			continue
 		}
+		if e.bound > 0 {
+			// under a binder no fresh constants: nested if-then-else over the (mutually exclusive) path conditions
+			t := vals[len(vals)-1]
+			for i := len(vals) - 2; i >= 0; i-- {
+				t = ite(live[i].pc, vals[i], t)
+			}
+			out.heaps[name] = t
+			continue
+		}
 		n := e.fresh(name, srt)
 		for i, s := range live {
 			e.assumes = append(e.assumes, implies(s.pc, eq(n, vals[i])))
@@ -786,6 +808,12 @@ func (e *Engine) merge(states []*State) *State {
 	}
 	if same {
 		out.top = live[0].top
+	} else if e.bound > 0 {
+		t := live[len(live)-1].top
+		for i := len(live) - 2; i >= 0; i-- {
+			t = ite(live[i].pc, live[i].top, t)
+		}
+		out.top = t
 	} else {
 		n := e.fresh("top", e.isort())
 		for _, s := range live {
